@@ -206,4 +206,4 @@ PROPERTY_INFO["C09"] = info2("exploration",
     "executed under the simulated scheduler (pool size 1-64 which also sets rayon's split depth, steals and migrated flags by draw, item closures yield) and compared with the sequential query on the same world and with "
     "the sequential counterpart's writes on a clone; non-trivial = the parallel iteration yielded results and was split at least once; distinct = distinct (query, configuration, decision list)",
     ["parallel_iteration_split", "run_with_steals"],
-    ["par_query_nonempty", "parallel_iteration_split", "run_with_steals", "par_optional_view_absent", "archetype_of_length_one", "large_archetype", "emptied_archetype", "empty_world"], "C09")
+    ["par_query_nonempty", "parallel_iteration_split", "run_with_steals", "par_optional_view_absent", "archetype_of_length_one", "large_archetype", "emptied_archetype", "empty_world", "value_consumer_split", "short_circuit_consumer", "short_circuit_skipped_items"], "C09")
